@@ -112,6 +112,19 @@ Definition num_failed (done_statuses : list (Z * status)) : nat :=
 Definition run_end (max_failures : nat) (done_statuses : list (Z * status)) : option Z :=
   if Nat.ltb max_failures (num_failed done_statuses) then handle_failure done_statuses else None.
 
+(* Tuner.run: done_trials_statuses.update(new_done_trial_statuses) after every poll (an OrderedDict:
+   a key keeps its first position, its value is overwritten) *)
+Fixpoint update_dict (acc new : list (Z * status)) : list (Z * status) :=
+  match new with [] => acc | (t, s) :: r => update_dict (set_key t s acc) r end.
+Definition accumulate (dones : list (list (Z * status))) : list (Z * status) := fold_left update_dict dones [].
+(* a whole run as seen by the failure limit: the polls (statuses, results with decisions,
+   trials_scheduler_stopped before the poll), max_failures; Some t = ValueError("Trial - t failed") *)
+Definition poll_in := (list (Z * status) * list (Z * decision) * list Z)%type.
+Definition poll_done (p : poll_in) : list (Z * status) :=
+  let '(sts, res, ss) := p in done (update_running_trials sts res ss).
+Definition tuner_end (max_failures : nat) (polls : list poll_in) : option Z :=
+  run_end max_failures (accumulate (map poll_done polls)).
+
 (* ------------------------------------------------------------------ *)
 (* (2) synchronous bracket                                              *)
 (* ------------------------------------------------------------------ *)
